@@ -37,6 +37,13 @@ def replay(ctx, cfg, events, ops, expected, mres, props):
     mres: model result for this history or None."""
     soup = build(events, cfg)
     forest = Forest(soup)
+    # .hidden only says whether an element's own tag is written on output; it must not change how the element is
+    # treated as an argument or target of the editing calls (only a BeautifulSoup object stands for its children)
+    from bs4 import BeautifulSoup as _BS
+    from bs4.element import Tag as _Tag
+    for i, o in enumerate(forest.objs):
+        if i % 4 == 2 and isinstance(o, _Tag) and not isinstance(o, _BS):
+            o.hidden = True
     case0 = {"events": events, "ops": []}
     if "C01" in props:
         bad = walk_check(forest)
